@@ -21,6 +21,7 @@ fn mk(n: u8, inits: &[u8], edges: &[Vec<u8>], bound: u16, props: Vec<(Expectatio
 
 /// C01: with a property that can never be discovered the check runs to completion.
 pub fn c01(ctx: &mut Ctx) {
+    wide_frontier(ctx, "c01");
     for (gi, (n, inits, edges, bound)) in graphs(seed(), thorough()).into_iter().enumerate() {
         let g = mk(n, &inits, &edges, bound, vec![(Expectation::Sometimes, 0)]);
         let mut ins: Vec<u8> = inits.clone(); ins.sort(); ins.dedup();
@@ -262,5 +263,53 @@ pub fn c13(ctx: &mut Ctx) {
             }
             ctx.check(&case, "c13-bfs-order-shortest", &["CB.check_block.loop1.invariant.queue-order"], ok, note, "non-decreasing distance; shortest witnesses".into());
         }
+    }
+}
+
+
+/// A frontier wider than one work block (1500 jobs): 0 -> 1..=N, n -> n + N. Every exhaustive
+/// strategy must still evaluate all 2N + 1 states (C01; C19 "once told to run to completion finishes like BFS").
+#[derive(Clone)]
+pub struct Fan(pub u32);
+impl stateright::Model for Fan {
+    type State = u32;
+    type Action = u32;
+    fn init_states(&self) -> Vec<u32> { vec![0] }
+    fn actions(&self, s: &u32, a: &mut Vec<u32>) {
+        if *s == 0 { a.extend(1..=self.0); } else if *s <= self.0 { a.push(*s + self.0); }
+    }
+    fn next_state(&self, _s: &u32, a: u32) -> Option<u32> { Some(a) }
+    fn properties(&self) -> Vec<stateright::Property<Self>> { vec![stateright::Property::sometimes("never", |_, _| false)] }
+}
+
+pub fn wide_frontier(ctx: &mut Ctx, which: &str) {
+    use stateright::{Checker, Model};
+    let n = 1700u32;
+    for strat in ["bfs", "dfs", "ondemand"] {
+        let case = format!("{}.fan:{}:n={}", which, strat, n);
+        if !ctx.want(&case) { continue; }
+        let (rec, acc) = stateright::StateRecorder::new_with_accessor();
+        let b = Fan(n).checker().visitor(rec);
+        let (unique, total) = match strat {
+            "bfs" => { let c = b.spawn_bfs().join(); (c.unique_state_count(), c.state_count()) }
+            "dfs" => { let c = b.spawn_dfs().join(); (c.unique_state_count(), c.state_count()) }
+            _ => {
+                let c = b.spawn_on_demand();
+                c.run_to_completion();
+                let t0 = std::time::Instant::now();
+                let mut last = usize::MAX; let mut stable = 0;
+                while t0.elapsed() < std::time::Duration::from_secs(8) && !c.is_done() {
+                    let cur = c.state_count();
+                    if cur == last { stable += 1; } else { stable = 0; last = cur; }
+                    if stable > 200 { break; }
+                    std::thread::sleep(std::time::Duration::from_millis(5));
+                }
+                (c.unique_state_count(), c.state_count())
+            }
+        };
+        let visited = acc().len();
+        let want = 2 * n as usize + 1;
+        ctx.check(&case, &format!("{}-wide-frontier-states-lost", strat), &["OND.check_block.ensures.partition", "CB.check_block.ensures.partition"], visited == want && unique == want && total >= unique,
+            format!("visited={} unique={} total={}", visited, unique, total), format!("visited={} unique={}", want, want));
     }
 }
